@@ -132,8 +132,9 @@ MANIFEST_TEXT = {
                 "party and at an index <= to_idx), unchanged; _find_next_fragment returns the first index >= start with that "
                 "sender. Everything else in C20 (the run loop, threads, sockets, timeouts, arrival interleavings, validity of the "
                 "interaction tree) is NOT decided by this family and not claimed as proved. Bounded stand-in (never counted as "
-                "proved): scripted in-process protocol runs of two specs (request/reply/ack with constraints across messages; two "
-                "remote parties) over peer behaviours (valid, wrong type, constraint violating, garbage, truncated) and "
+                "proved): scripted in-process protocol runs of five specs (request/reply/ack with constraints across messages; two "
+                "remote parties; one message type addressed to several parties; pipelined remote messages; a remote message with a "
+                "computed repetition count) over peer behaviours (valid, wrong type, constraint violating, garbage, truncated) and "
                 "fragmentations / interleavings of the remote data, judged against recognisers of the protocols: recorded "
                 "interaction is a correctly attributed prefix of the protocol, sends equal the recorded fuzzer messages, recorded "
                 "remote data equals delivered data, bad remote messages are never recorded.",
